@@ -328,11 +328,26 @@ fn err_fields(e: &Error, origin: &str, pest: Option<(usize, usize, usize)>) -> S
   }
 }
 
+thread_local! {
+  // every document of a run is parsed out of ONE reused buffer (same address, different contents): positions must not
+  // depend on what was parsed before from the same place (seeded C15-3: a line cursor keyed by the input's address)
+  static BUF: std::cell::RefCell<String> = std::cell::RefCell::new(String::with_capacity(1 << 20));
+}
+
 fn parse(parts: &[&str]) -> String {
-  let text = match String::from_utf8(impl_driver::unhex(parts[1])) {
+  let decoded = match String::from_utf8(impl_driver::unhex(parts[1])) {
     Ok(t) => t,
     Err(_) => return "BADUTF8".to_string(),
   };
+  BUF.with(|b| {
+    let mut b = b.borrow_mut();
+    b.clear();
+    b.push_str(&decoded);
+    parse_text(b.as_str())
+  })
+}
+
+fn parse_text(text: &str) -> String {
   // pest's own verdict and failure offset (input of the ErrRange model)
   let pest_res = CddlParser::parse(PRule::cddl, &text);
   let pest_err = match &pest_res {
